@@ -19,7 +19,12 @@ Record env := Env {
   e_root : path;                        (* the cursor Exec was called with *)
   e_ns : list (str * str);              (* prefix -> URI *)
   e_vars : list (qname * value);
-  e_funs : list (qname * ufun)
+  e_funs : list (qname * ufun);
+  (** [true]: evaluate with the literal transcription of the one defect that stays
+      open (round() sends negative ties away from zero); used ONLY by the
+      correspondence check to recognise that known finding. The theorems and the
+      default comparison use [false], the property-conformant round(). *)
+  e_asis : bool
 }.
 
 Record ctx := Ctx {
@@ -307,7 +312,10 @@ Definition call_builtin (en : env) (name : str) (args : list value) (c : ctx) : 
   else if is "ceiling" then
     match args with [a] => Ok (VNum (f_ceil (to_num d a))) | _ => Err end
   else if is "round" then
-    match args with [a] => Ok (VNum (f_round_go (to_num d a))) | _ => Err end
+    match args with
+    | [a] => Ok (VNum ((if e_asis en then f_round_go else f_round_xpath) (to_num d a)))
+    | _ => Err
+    end
   else Err.
 
 Definition call_ufun (f : ufun) (args : list value) (c : ctx) : res value :=
